@@ -32,12 +32,21 @@ _rewrite_pattern = re.compile(
     '(' + '|'.join(re.escape(x) for x in _rewrite_symbols.keys()) + ')')
 
 
-def _rewrite_func(match):
-    return _rewrite_symbols[match.group(0)]
-
-
 def osc_rematch_pattern(pattern, address):
-    pattern = re.sub(_rewrite_pattern, _rewrite_func, pattern)
+    depth = 0
+
+    def rewrite_func(match):
+        nonlocal depth
+        symbol = match.group(0)
+        if symbol == '{':
+            depth += 1
+        elif symbol == '}':
+            depth -= 1
+        elif symbol == ',' and depth <= 0:
+            return ','  # A comma is only special within braces.
+        return _rewrite_symbols[symbol]
+
+    pattern = re.sub(_rewrite_pattern, rewrite_func, pattern)
     try:
         return re.fullmatch(pattern, address) is not None
     except re.error:
